@@ -549,11 +549,13 @@ def _r10_props(f, fld):
     if q.endswith("TimePoint.__add__"):
         return ("C05",)
     if q.endswith("_tick_over_day_of_month"):
-        return ("C01", "C05", "C06")
+        return ("C01", "C05", "C06", "C02", "C04")
     if q.endswith("_tick_over"):
+        # the normaliser also runs under every re-zoning, which feeds
+        # comparison (C02) and subtraction (C04)
         if fld in ("_day_of_year", "_week_of_year"):
-            return ("C01", "C06", "C20")
-        return ("C01", "C05", "C06")
+            return ("C01", "C06", "C20", "C02", "C04")
+        return ("C01", "C05", "C06", "C02", "C04")
     return ("C01", "C05", "C09")
 
 
